@@ -19,6 +19,13 @@ def x_jobs():
     for m in SELECT:
         j.append(X("c09_method", {"kind": m, "n": 2, "j": 1, "t": 3, "mode": "fp"}, "%s length 2: determinism and clone independence, exact (fp mode)" % m, cost=10, encodes=ENC))
     j.append(X("c09_method", {"kind": "SMM", "n": 2, "j": 1, "t": 3, "mode": "fp", "max_paths": 200000}, "SMM length 2: determinism and clone independence (fp mode)", cost=60, encodes=ENC))
+    PEEK = ["SMA", "WMA", "EMA", "DMA", "TMA", "DEMA", "TEMA", "RMA", "WSMA", "HMA", "LinReg", "SWMA", "TRIMA", "Vidya", "Integral", "StDev", "MeanAbsDev", "MedianAbsDev", "LinearVolatility"]
+    for m in PEEK:
+        n = 2 if m in ("HMA", "LinReg", "StDev", "MedianAbsDev") else 1
+        for (nn, t) in ((n, 4), (n + 1, 5)):
+            j.append(X("c09_peek", {"kind": m, "n": nn, "t": t}, "%s length %d, %d symbolic steps (plateaus, exact returns included: the inputs are unconstrained): peek() == the value next just returned, also through &T; an instance that is never peeked produces the same outputs" % (m, nn, t), cost=5, encodes=ENC + ["src/methods/*.rs: Peekable::peek of the named method"]))
+    for m in SELECT + ["SMM"]:
+        j.append(X("c09_peek", {"kind": m, "n": 2, "t": 4, "mode": "fp", "max_paths": 200000}, "%s length 2, 4 symbolic steps, every order pattern incl. ties and +-0 (fp mode): peek() == the value next just returned" % m, cost=30, encodes=ENC))
     for ind in INDICATORS:
         j.append(X("ind_stream_dispatch", {"kind": ind, "t": 3, "max_paths": 20000}, "%s (default configuration), 3 valid symbolic candles: result shape equals size(), two identically built instances agree, a clone taken before the last step continues identically, no panic on any feasible path" % ind, cost=15, timeout=1200,
                    encodes=["src/indicators/*.rs: %s::{init,next}" % ind, "src/core/indicator/result.rs", "src/helpers/methods.rs", "src/methods/*.rs"]))
